@@ -2,7 +2,6 @@ import PlumVerif.Proofs.DecodeShort
 import PlumVerif.Props.C05Sensors
 /-
 C05 (extension) — the malformed side: truncated sensor-data payloads.
-`decode_total`: the decoder model is a total function into value-or-error.
 `short_payload_errors`: every strict prefix of a well-formed encoding is an error, except the
 prefixes that only cut the unread tail of the LAST mixer block (`mixerSlack`: its last byte, or
 its last four bytes when the mixer is not connected) -- those decode to the full value.
@@ -401,13 +400,10 @@ theorem decMixers_tail_ok (ms : List MixerMsg) (hn : ms.length < 256) (j : Nat)
       rw [hc, hdec]
       simp [valMixers]
 
-/-- **decode_total**: on EVERY byte string the sensor-data decoder model answers -- a value or the
-one error token; there is no third outcome (it is a total function, nothing is indexed unchecked) -/
-theorem decode_total (msg : List Byte) :
-    decodeSensorData msg = none ∨ ∃ v, decodeSensorData msg = some v := by
-  cases decodeSensorData msg with
-  | none => exact Or.inl rfl
-  | some v => exact Or.inr ⟨v, rfl⟩
+/- (The decoder model is a total function `List Byte → Option SensorVal`: on every byte string it
+answers a value or the one error token.  That is its TYPE, not a theorem -- the former
+`decode_total` only restated it and was dropped (audit R6 item 26).  The content about malformed
+input is below: exactly which strict prefixes are errors.) -/
 
 /-- **short_payload_errors**: every strict prefix of a well-formed sensor-data payload is an
 error -- wherever the cut falls: inside a count, a fixed-width field, a float, a module version,
